@@ -192,6 +192,12 @@ def check_case(case, res, acc, record=True):
             expected_outcome = ("response", status, None)
             stop_reason = "terminal"
             break
+        if status in G.NOT_REDIRECT:
+            # 300 / 304 carry a Location here but are not redirects: handed back as they are
+            expected_outcome = ("response", status, None)
+            stop_reason = "not-a-redirect"
+            acc.counters["non_redirect_3xx_answered"] += 1
+            break
         can_follow = enabled and followed < budget
         if form == "z":
             # EITHER region: an empty Location value names no target. Handing back the 3xx
@@ -231,7 +237,7 @@ def check_case(case, res, acc, record=True):
     n_allowed = j + 1
     if expected_outcome != "skip":
         if len(reqs) > n_allowed:
-            clause = {"terminal": "request-after-final-answer", "host-changed": "pool-left-its-host",
+            clause = {"terminal": "request-after-final-answer", "not-a-redirect": "followed-non-redirect-status", "host-changed": "pool-left-its-host",
                       "disabled-kw": "followed-despite-redirect-False", "disabled": "followed-despite-retries-False",
                       "exhausted": "budget-exceeded"}[stop_reason]
             extra = reqs[n_allowed]
@@ -299,10 +305,12 @@ def chain_set(key):
     if key in _CHAINS:
         return _CHAINS[key]
     statuses, forms, max_len, loop_len = key
-    alpha = G.hopcodes(statuses, forms)
+    alpha = G.hopcodes([x for x in statuses if x not in G.NOT_REDIRECT], forms)
+    # non-redirect 3xx codes (300, 304) with a Location: three forms are enough (never to be followed)
+    alpha += G.hopcodes([x for x in statuses if x in G.NOT_REDIRECT], [f for f in ("a", "h", "r", "l") if f in forms][:3])
     out = [(c, "c") for c in G.chains(alpha, max_len)]
     if loop_len:
-        out += [(c, "l") for c in G.chains([h for h in alpha if h[1] not in G.TERMINAL_FORMS], loop_len, 1)]
+        out += [(c, "l") for c in G.chains([h for h in alpha if not G.is_terminal_hop(h)], loop_len, 1)]
     _CHAINS[key] = out
     return out
 
@@ -335,8 +343,8 @@ def families(thorough):
     f1_status = ALL_STATUS if thorough else (302, 303, 307)
     for client in G.CLIENTS:
         pool = client in ("HTTPConnectionPool", "ManagerPool")
-        # quick: {same-origin, other host}; thorough adds other scheme (and `a` for pools)
-        f1_forms = (("l", "h") if pool else ("r", "h")) + ((("s", "a") if pool else ("s",)) if thorough else ())
+        # F1 hops: {same-origin, other host} (other port / scheme and every Location form are F2's)
+        f1_forms = ("l", "h") if pool else ("r", "h")
         for method in ("GET", "POST"):
             for pl in placements(client, thorough):
                 case = {"client": client, "req_policy": pl[0], "ctor_policy": pl[1], "redirect_kw": pl[2]}
@@ -354,7 +362,7 @@ def families(thorough):
         for start in ("had", "sad"):
             for method in ("GET", "POST"):
                 for pl in f2_pl:
-                    out.append(("F2", client, start, method, pl, (ALL_STATUS, f2_forms, 2, 0)))
+                    out.append(("F2", client, start, method, pl, (ALL_STATUS + G.NOT_REDIRECT, f2_forms, 2, 0)))
                     if thorough:
                         out.append(("F2", client, start, method, pl, ((302, 303, 307), f2_forms, 3, 0)))
     return out
@@ -470,6 +478,7 @@ def run(ctx):
                    (c["post_turned_get"] > 0 and c["post_kept"] > 0, "303 conversion / POST preservation not both observed"),
                    (c["https_requests"] > 0 and c["via_tunnel"] > 0, "no https / tunnelled request observed"),
                    (c["either_empty_location_returned"] > 0, "empty Location never exercised"),
+                   (c["non_redirect_3xx_answered"] > 0, "300/304 never exercised"),
                ])
 
 
